@@ -51,6 +51,30 @@ fn check_counts(violations: &mut Vec<String>, when: &str) {
 
 fn main() {
     let args: Vec<String> = std::env::args().collect();
+    if args.len() >= 3 && args[1] == "--refs" {
+        // Independent single-threaded reference: every op of every given scenario executed by the
+        // main thread of THIS process, one after the other.  No thread is ever spawned, so no
+        // object can have been corrupted by a race while it was being constructed; the driver
+        // compares what racing threads of OTHER processes observed with these outcomes.
+        std::panic::set_hook(Box::new(|_| {}));
+        for (k, a) in args[2..].iter().enumerate() {
+            let sc = match decode(a) {
+                Ok(s) => s,
+                Err(e) => {
+                    eprintln!("HARNESS-ERROR: cannot decode scenario: {}", e);
+                    std::process::exit(2);
+                }
+            };
+            for (ti, t) in sc.threads.iter().enumerate() {
+                for (oi, op) in t.ops.iter().enumerate() {
+                    let o = exec(op);
+                    println!("SEQ k={} t={} i={} {}", k, ti, oi, fmt_out(&Outcome { ptr: 0, ..o }));
+                }
+            }
+        }
+        println!("SEQ-DONE {}", args.len() - 2);
+        return;
+    }
     if args.len() != 2 {
         eprintln!("HARNESS-ERROR: usage: sima <encoded scenario>");
         std::process::exit(2);
